@@ -162,12 +162,53 @@ class _Recorder:
         return False
 
 
+def _con_current(c):
+    from acnportal.acnsim import Current
+    return Current({station_id(i): cf for i, cf in enumerate(c["coef"]) if cf != 0})
+
+
+def warm_up(case, sim, algo):
+    """History independence: the algorithm object has already scheduled once for the same stations and
+    sessions under a *different* infrastructure (every limit scaled, one extra tight constraint), which
+    is then reconfigured through the network's public API (update_constraint / remove_constraint) into
+    the case's infrastructure.  SortedAlgo.tla defines the result as a function of the infrastructure
+    and the sessions at the invocation, so nothing of the earlier call may show in the later one."""
+    net = case["net"]
+    network = sim.network
+    h = int(case_id(case)[:6], 16)
+    scale = [0.5, 3.0, 0.25][h % 3]
+    for k, c in enumerate(net["con"]):
+        network.update_constraint("con-%d" % k, _con_current(c), c["lim"] / U * scale)
+    extra = None
+    if (h >> 2) % 2:
+        from acnportal.acnsim import Current
+        extra = "warm-extra"
+        network.add_constraint(Current([station_id(i) for i in range(len(net["st"]))]), 1.0, extra)
+    try:
+        algo.run()
+    except Exception:  # noqa  (the perturbed infrastructure may defeat e.g. the minimum-rate step; not this case's business)
+        pass
+    if extra:
+        network.remove_constraint(extra)
+    for k, c in enumerate(net["con"]):
+        network.update_constraint("con-%d" % k, _con_current(c), c["lim"] / U)
+
+
+def is_warm(case):
+    return int(case_id(case)[6:10], 16) % 3 == 0
+
+
 def run_case(case):
     """algorithm.run() on the real objects. -> {"out": [A per station], "keys", "tests", "searches"} or {"exc"}."""
     with warnings.catch_warnings():
         warnings.simplefilter("ignore")
         sim, algo = build_case(case)
         n = len(case["net"]["st"])
+        try:
+            if is_warm(case):
+                warm_up(case, sim, algo)
+        except Exception as e:  # noqa
+            return {"exc": "reconfiguring the network: %s: %s" % (type(e).__name__, str(e)[:200])}
         try:
             with _Recorder(algo) as rec:
                 sched = algo.run()
